@@ -281,13 +281,18 @@ class AsyncTLSStreamTransport(AsyncStreamTransport):
                 result = ssl_object_method(*args)
             except _ssl_module.SSLWantReadError:
                 try:
+                    feed_count = self.__incoming_reader.feed_count
+
                     # Flush any pending writes first
                     async with self.__transport_send_lock:
                         if self._write_bio.pending:
                             await self._transport.send_all(self._write_bio.read())
 
                     async with self.__transport_recv_lock:
-                        await self.__incoming_reader.readinto(self._read_bio)
+                        # Another task may have fed the SSL object while this one was waiting for the locks:
+                        # in that case retry the SSL method before waiting for more data.
+                        if self.__incoming_reader.feed_count == feed_count:
+                            await self.__incoming_reader.readinto(self._read_bio)
                 except OSError:
                     self._read_bio.write_eof()
                     self._write_bio.write_eof()
@@ -453,13 +458,16 @@ class _IncomingDataReader:
 
     buffer: bytearray | None = dataclasses.field(init=False)
     buffer_view: memoryview = dataclasses.field(init=False)
+    feed_count: int = dataclasses.field(init=False, default=0)
 
     def __post_init__(self) -> None:
         self.buffer = bytearray(self.max_size)
         self.buffer_view = memoryview(self.buffer)
 
     async def readinto(self, read_bio: MemoryBIO) -> int:
-        if (nbytes := await self.transport.recv_into(buffer := self.buffer_view)) > 0:
+        nbytes = await self.transport.recv_into(buffer := self.buffer_view)
+        self.feed_count += 1
+        if nbytes > 0:
             return read_bio.write(buffer[:nbytes])
         read_bio.write_eof()
         return 0
